@@ -674,10 +674,45 @@ func (g *vGen) volume() []*vEntry {
 	return es
 }
 
+// bantable: the same address banned twice under two spellings - listed by hand in the configuration and banned
+// again by an operator's GLINE - and then a new client arrives from it
+func (g *vGen) bantable() []*vEntry {
+	r := g.r
+	var es []*vEntry
+	g.rev++
+	cfg := vCfgEntry(r, 0, 0, g.rev)
+	for !cfg.CfgOk || cfg.Cfg["maxs"].(int64) != 0 || len(cfg.Cfg["opers"].([]interface{})) == 0 ||
+		cfg.Cfg["banned"].(map[string]interface{})["2001:DB8::1"] == nil {
+		cfg = vCfgEntry(r, 0, 0, g.rev)
+	}
+	es = append(es, cfg)
+	base := g.id
+	for k := 0; k < 3; k++ {
+		es = append(es, &vEntry{T: "create", Data: fmt.Sprintf("auth%04d-secret", base+int64(k)+1), Sup: true, Conf: true})
+	}
+	line := func(sess int64, data, addr string) {
+		es = append(es, &vEntry{T: "line", Sess: sess, Data: data, Addr: addr, Sup: true, Conf: true})
+	}
+	a, b, c := base+1, base+2, base+3
+	line(a, "NICK alice", "a1")
+	line(a, "USER u1 0 * :Real 1", "")
+	line(b, "NICK bob", "2001:db8::1")
+	line(b, "USER u2 0 * :Real 2", "")
+	line(a, "OPER op pw", "")
+	line(b, "JOIN #a", "")
+	line(a, "GLINE bob :spam", "")
+	line(c, "NICK carol", "2001:db8::1")
+	line(c, "USER u3 0 * :Real 3", "")
+	return es
+}
+
 func (g *vGen) warmup() []*vEntry {
 	r := g.r
-	if r.Intn(14) == 0 {
+	switch r.Intn(28) {
+	case 0, 1:
 		return g.volume()
+	case 2, 3:
+		return g.bantable()
 	}
 	var es []*vEntry
 	g.rev++
